@@ -1,13 +1,13 @@
 #!/bin/bash
 # tools/seedkeep.sh <seed-worktree> <name> <ID> "<result line>" : keep a confirmed seeded change under /verif/seeded/<name>/
 S=$1/seeded; N=$2; ID=$3; RES=$4; D=/verif/seeded/$N; mkdir -p $D; cp $S/* $D/
-python3 - $D/meta.json "$ID" "$RES" "$(cat /tmp/seedtools/$(basename $1 | sed 's/seed-//').confirm 2>/dev/null)" <<'PY'
+python3 - $D/meta.json "$ID" "$RES" "$(cat $S/confirm.txt 2>/dev/null)" <<'PY'
 import json,sys
 p=sys.argv[1]
 try: m=json.load(open(p))
 except Exception: m={}
 m['breaks_property']=sys.argv[2]
-m['confirmed']=sys.argv[4] or 'patch applies; go build ok; repository suite: 2544 stable tests pass with the patch; demo passes on the unchanged tree and fails with the patch (tools: /tmp/seedtools/confirm.sh)'
+m['confirmed']=sys.argv[4] or 'patch applies; go build ok; repository suite: 2544 stable tests pass with the patch; demo passes on the unchanged tree and fails with the patch (tools/seedconfirm.sh)'
 m['ran']='tools/seedtest.sh (patch applied to a scratch copy, handed to the check build as whole-file overlay replacements; /repo untouched) -> ./check %s --tier quick' % sys.argv[2]
 m['check_result']=sys.argv[3]
 json.dump(m,open(p,'w'),indent=1)
